@@ -154,7 +154,7 @@ class Intersection:
             return Intersection._inse_retangle_float(ctrlptsa, ctrlptsb)
 
     @staticmethod
-    def filter_pairs(pairs: Tuple[Tuple[float]], tolerance: float = 1e-9):
+    def filter_pairs(pairs: Tuple[Tuple[float]], tolerance: float = 1e-6):
         """Filter the repeted knots within a given tolerance"""
         pairs = np.array(pairs, dtype="float64")
         filteredpairs = []
